@@ -33,6 +33,38 @@ THEOREMS = [
     'CpProofs.C14.C14_persist_any_handler',
     'CpProofs.C14.futureNot_of_drawn',
     'CpProofs.C14.futureNot_of_stored',
+    # second layer (C14Ext): presented cookie, response cookie, sliding expiry, dict interface, Monitor
+    'CpProofs.C14.requestS_eq',
+    'CpProofs.C14.C14_presented_last_wins',
+    'CpProofs.C14.C14_presented_ignores_other_names',
+    'CpProofs.C14.C14_no_fixation_pairs',
+    'CpProofs.C14.C14_fresh_id_independent_of_cookie',
+    'CpProofs.C14.C14_sliding_expiry',
+    'CpProofs.C14.C14_untouched_not_saved',
+    'CpProofs.C14.C14_regenerate_keeps_data',
+    'CpProofs.C14.C14_expired_unswept',
+    'CpProofs.C14.C14_expired_never_adopted_false',
+    'CpProofs.C14.C14_expiry_inequalities',
+    'CpProofs.C14.C14_boundary_file',
+    'CpProofs.C14.C14_boundary_ram',
+    'CpProofs.C14.C14_acc_loads_lazily',
+    'CpProofs.C14.C14_cookie_lifetime',
+    'CpProofs.C14.C14_cookie_session_cookie',
+    'CpProofs.C14.C14_cookie_attributes',
+    'CpProofs.C14.C14_expire_cookie',
+    'CpProofs.C14.C14_expire_keeps_store',
+    'CpProofs.C14.C14_regen_cookie',
+    'CpProofs.C14.C14_cookie_defaults_table',
+    'CpProofs.C14.C14_monitor_started',
+    'CpProofs.C14.C14_monitor_once',
+    'CpProofs.C14.C14_monitor_count',
+    # overlapping requests, self-expiring store (C14Conc)
+    'CpProofs.C14.C14_overlap_distinct',
+    'CpProofs.C14.memRun_eq_run',
+    'CpProofs.C14.memRun_outs',
+    'CpProofs.C14.C14_mem_no_fixation_history',
+    'CpProofs.C14.C14_mem_persist',
+    'CpProofs.C14.C14_mem_expired_not_adopted',
 ]
 TRUSTED_BASE = [
     'pickle is a parameter of the model: the torn-file theorem is relative to the contract "a proper prefix of a '
